@@ -17,8 +17,10 @@ pub mod c12;
 pub mod c13;
 pub mod c14;
 pub mod c15;
+pub mod c16;
 pub mod c18;
 pub mod c19;
+pub mod c20;
 pub mod pipes;
 
 pub struct PropDef {
@@ -119,6 +121,13 @@ pub static PROPS: &[PropDef] = &[
         workers: w16,
     },
     PropDef {
+        id: "C16",
+        level: "exploration",
+        run: c16::run,
+        replay: c16::replay,
+        workers: w16,
+    },
+    PropDef {
         id: "C18",
         level: "exploration",
         run: c18::run,
@@ -130,6 +139,13 @@ pub static PROPS: &[PropDef] = &[
         level: "exploration",
         run: c19::run,
         replay: c19::replay,
+        workers: w16,
+    },
+    PropDef {
+        id: "C20",
+        level: "exploration",
+        run: c20::run,
+        replay: c20::replay,
         workers: w16,
     },
     PropDef {
